@@ -70,10 +70,11 @@ Judge(e) ==
          (LET bad == {i \in DOMAIN e.ress : ~(e.ress[i].kind = "rows" /\ ResultOK(e.q, db, e.ress[i].rows))} IN
           IF bad = {} THEN TRUE
           ELSE PrintT("MM " \o ToJson([l |-> l, id |-> e.id, what |-> "variant", bad |-> bad, exp |-> Rows(e.q, <<>>, db)])))
-    [] e.ev = "quiesce" ->    \* C36: at quiescence no query is running and every session is listed and idle
-         (IF e.threads_running = 0 /\ e.busy = 0 /\ e.connections = e.expected_connections THEN TRUE
+    [] e.ev = "quiesce" ->    \* C36: at quiescence no query is running, every session is listed and idle, and the
+                              \* shared memory manager holds no cache of a finished query
+         (IF e.threads_running = 0 /\ e.busy = 0 /\ e.connections = e.expected_connections /\ e.caches = 0 THEN TRUE
           ELSE PrintT("MM " \o ToJson([l |-> l, id |-> e.id, what |-> "registries", running |-> e.threads_running,
-                                        busy |-> e.busy, connections |-> e.connections])))
+                                        busy |-> e.busy, connections |-> e.connections, caches |-> e.caches])))
     [] OTHER -> TRUE
 
 Next ==
